@@ -50,7 +50,8 @@ Inductive zop :=
 | ZRepeat (t : nat) (axis : Z) (reps : list Z)
 | ZLin (code : Z) (a b : nat) (m : lmode) (refused : Z)   (* 0 matmul, 1 matvec, 2 outer; refused: 0 no, 1 err, 2 panic *)
 | ZInner (a b : nat) (refused : Z)
-| ZTrace (a : nat) (refused : Z).
+| ZTrace (a : nat) (refused : Z)
+| ZTensorMul (a b : nat) (axesA axesB : list Z) (refused : Z).
 
 Definition zred (code : Z) : Z -> Z -> Z :=
   if code =? 0 then Z.add else if code =? 1 then Z.min else Z.max.
@@ -66,6 +67,129 @@ Definition of_oresult (σ0 : store Z) (r : store Z * oresult) : store Z * outcom
   | (σ, OOk t) => (σ, RNew Z t)
   | (σ, OErrR) => (σ, RErr Z)
   | (σ, OPanicR) => (σ, RPanic Z)
+  end.
+
+(* ---- tensor.Dot on two registered tensors (defaultengine_linalg.go), safe mode ---- *)
+Definition lres_outcome (σ0 : store Z) (r : store Z * lres) : store Z * outcome Z :=
+  match r with
+  | (σ', LNew d) => let '(σ'', t') := add_t Z σ' d in (σ'', RNew Z t')
+  | (σ', LSame t) => (σ', RNew Z t)
+  | (σ', LErr) => (σ', RErr Z)
+  | (σ', LPanic) => (σ', RPanic Z)
+  end.
+
+Definition zdot (σ : store Z) (ta tb : nat) : store Z * outcome Z :=
+  match get_t Z σ ta, get_t Z σ tb with
+  | Some a, Some b =>
+    let sa := shp (d_ap a) in let sb := shp (d_ap b) in
+    if is_scalar sa || is_scalar sb then (σ, RPanic Z)          (* scalar forms: not modelled *)
+    else if is_vector sa then
+      if is_vector sb then
+        (* a.len() != b.len() -> error; otherwise Inner and New(FromScalar(ret)) *)
+        if negb (d_len a =? d_len b) then (σ, RErr Z) else
+        match m_inner Z 0 Z.add Z.mul σ ta tb with
+        | Ok v => let '(σ1, t') := new_result σ [] [v] in (σ1, RNew Z t')
+        | Err => (σ, RErr Z)
+        | Panic => (σ, RPanic Z)
+        end
+      else if (length sb =? 2)%nat then
+        (* b.T(); defer b.UT(); b.MatVecMul(a) *)
+        match m_T Z σ tb [] with
+        | Ok σ1 =>
+          let '(σ2, r) := lres_outcome σ1 (m_matvec Z 0 Z.add Z.mul σ1 tb ta LSafe) in
+          match m_UT Z σ2 tb with
+          | Ok σ3 => (σ3, r)
+          | _ => (σ2, RPanic Z)
+          end
+        | Err => (σ, RErr Z)
+        | Panic => (σ, RPanic Z)
+        end
+      else (σ, RPanic Z)                                          (* TensorMul dispatch: not modelled *)
+    else if (length sa =? 2)%nat then
+      if is_vector sb then lres_outcome σ (m_matvec Z 0 Z.add Z.mul σ ta tb LSafe)
+      else if (length sb =? 2)%nat then lres_outcome σ (m_matmul Z 0 Z.add Z.mul σ ta tb LSafe)
+      else (σ, RPanic Z)
+    else (σ, RPanic Z)
+  | _, _ => (σ, RPanic Z)
+  end.
+
+(* ---- Dense.TensorMul(other, axesA, axesB) (dense_linalg.go): clones of both operands are lazily
+   transposed so that the contracted axes come last (resp. first), transposed physically, reshaped
+   to matrices, multiplied by Dot, and the product is reshaped; the clones go back to the pool ---- *)
+Definition ztensormul (σ : store Z) (ta tb : nat) (axesA axesB : list Z) : store Z * outcome Z :=
+  match get_t Z σ ta, get_t Z σ tb with
+  | Some a, Some b =>
+    let sa := shp (d_ap a) in let sb := shp (d_ap b) in
+    let td := zlen sa in let od := zlen sb in
+    if negb (length axesA =? length axesB)%nat then (σ, RErr Z) else
+    (* ts[axesA[i]] / os[axesB[i]]: a Go index panic outside the ranks; negatives are shifted only
+       AFTER they were used as indices *)
+    if negb (forallb (fun i => (0 <=? i) && (i <? td)) axesA) || negb (forallb (fun i => (0 <=? i) && (i <? od)) axesB)
+    then (σ, RPanic Z) else
+    let ka := map (fun ax => znth 0 sa ax) axesA in
+    let kb := map (fun ax => znth 0 sb ax) axesB in
+    if negb (list_eqb ka kb) then (σ, RErr Z) else
+    let notA := filter (fun i => negb (existsb (Z.eqb i) axesA)) (zseq 0 (Z.to_nat td)) in
+    let notB := filter (fun i => negb (existsb (Z.eqb i) axesB)) (zseq 0 (Z.to_nat od)) in
+    let n2 := size ka in
+    if n2 =? 0 then (σ, RPanic Z) else
+    let shT := [Z.quot (size sa) n2; n2] in
+    let shO := [n2; Z.quot (size sb) n2] in
+    let ret1 := map (fun i => znth 0 sa i) notA in
+    let ret2 := map (fun i => znth 0 sb i) notB in
+    let retShape := match ret1 ++ ret2 with [] => [1] | s => s end in
+    let n := length (tens Z σ) in
+    let fail (r : outcome Z) : store Z * outcome Z := (σ, r) in
+    match m_clone Z σ ta with
+    | Ok (σ1, ia) =>
+      match m_clone Z σ1 tb with
+      | Ok (σ2, ib) =>
+        let prep (σx : store Z) (i : nat) (axes sh : list Z) : res (store Z) :=
+          match m_T Z σx i axes with
+          | Ok σa =>
+            match m_transpose Z σa i with
+            | Ok σb => match m_reshape Z σb i sh with
+                       | Ok (σc, false) => Ok σc
+                       | Ok (_, true) => Err
+                       | Err => Err
+                       | Panic => Panic
+                       end
+            | Err => Err
+            | Panic => Panic
+            end
+          | Err => Err
+          | Panic => Panic
+          end in
+        match prep σ2 ia (notA ++ axesA) shT with
+        | Ok σ3 =>
+          match prep σ3 ib (axesB ++ notB) shO with
+          | Ok σ4 =>
+            match zdot σ4 ia ib with
+            | (σ5, RNew _ p) =>
+              match m_reshape Z σ5 p retShape with
+              | Ok (σ6, false) =>
+                (* the clones are handed back to the pool: only the product stays *)
+                match get_t Z σ6 p with
+                | Some dp => (mkStore Z (bufs Z σ6) (firstn n (tens Z σ6) ++ [dp]), RNew Z n)
+                | None => fail (RPanic Z)
+                end
+              | Ok (_, true) => fail (RErr Z)
+              | Err => fail (RErr Z)
+              | Panic => fail (RPanic Z)
+              end
+            | (_, r) => fail r
+            end
+          | Err => fail (RErr Z)
+          | Panic => fail (RPanic Z)
+          end
+        | Err => fail (RErr Z)
+        | Panic => fail (RPanic Z)
+        end
+      | _ => fail (RPanic Z)
+      end
+    | _ => fail (RPanic Z)
+    end
+  | _, _ => (σ, RPanic Z)
   end.
 
 Definition zstep_model (σ : store Z) (o : zop) : store Z * outcome Z :=
@@ -183,6 +307,7 @@ Definition zstep_model (σ : store Z) (o : zop) : store Z * outcome Z :=
     match m_trace Z 0 Z.add σ a with
     | Ok v => (σ, RVal Z v) | Err => (σ, RErr Z) | Panic => (σ, RPanic Z)
     end
+  | ZTensorMul a b axesA axesB _ => ztensormul σ a b axesA axesB
   end.
 
 (* what reduce() leaves in the caller's axes slice *)
@@ -328,6 +453,17 @@ Definition zstep_spec (ς : sstate Z) (o : zop) : option (sstate Z * outcome Z) 
       end
     | _, _ => None
     end
+  | ZTensorMul a b axesA axesB refused =>
+    (* a combination the library refuses is outside the statement only when the SPEC has no value
+       for it either; a refusal of a well-formed contraction is a finding (the hint is not used) *)
+    match sget Z ς a, sget Z ς b with
+    | Some x, Some y =>
+      match spec_tensormul_vals Z 0 Z.add Z.mul ς x y axesA axesB with
+      | None => Some (ς, RErr Z)
+      | Some (sh, vs) => spec_vals_deliver ς a sh (map (fun v => Some v) vs) (0, O) false
+      end
+    | _, _ => None
+    end
   | ZTrace a refused =>
     if refused =? 1 then Some (ς, RErr Z) else if refused =? 2 then Some (ς, RPanic Z) else
     match sget Z ς a with
@@ -457,6 +593,12 @@ Definition zguard (σ : store Z) (o : zop) : gclass :=
     match filter (fun d => match guard_read d with GOk => false | _ => true end) (tens [a; b]) with
     | d :: _ => guard_read d
     | [] => if existsb (fun d => d_view d || is_nc (ord (d_ap d)) || is_some (d_old d)) (tens [a; b]) then GView else GOk
+    end
+  | ZTensorMul a b _ _ _ =>
+    match filter (fun d => match guard_read d with GOk => false | _ => true end) (tens [a; b]) with
+    | d :: _ => guard_read d
+    | [] => if existsb (fun d => is_cm (ord (d_ap d))) (tens [a; b]) then GOrderMix
+            else if existsb (fun d => d_view d || is_some (d_old d)) (tens [a; b]) then GView else GOk
     end
   | ZTrace a _ =>
     match tens [a] with
